@@ -3,6 +3,7 @@
 from __future__ import annotations
 
 import ast
+import re
 
 from ..astutil import attr_chain, call_attr, calls_in, expand_value_calls, guard_facts, unparse, walk_local, text_facts
 from ..cfg import CFG
@@ -14,6 +15,100 @@ PO = "xdsl/ir/post_order.py"
 DOM = "xdsl/irdl/dominance.py"
 
 DEDUP_CALLS = {"fromkeys", "set", "frozenset", "unique", "OrderedSet"}
+
+
+
+def _meet_verdict(loop: ast.For, upd: ast.Assign, b: str):
+    """None when on every path through the sweep body the new dominator set of `b` is {b} ∪ ⋂ dom[p] over all p in pred[b]
+    (and {b} when there is no predecessor); ("meet", msg) on positive evidence of another meet; ("meet-unrecognised", msg)
+    when the construction is not understood."""
+    import copy
+
+    from ..paths import enum_paths
+
+    fn = ast.FunctionDef(name="_sweep_body", args=ast.arguments(posonlyargs=[], args=[], kwonlyargs=[], kw_defaults=[], defaults=[]), body=copy.deepcopy(loop.body), decorator_list=[], lineno=loop.lineno, col_offset=0)
+    ast.fix_missing_locations(fn)
+    target = unparse(upd.targets[0])
+    seen = 0
+    for pth in enum_paths(fn):
+        if not pth.feasible():
+            continue
+        ks = [k for k, e_ in enumerate(pth.effects) if isinstance(e_, ast.Assign) and unparse(e_.targets[0]) == target]
+        if not ks:
+            continue
+        k = ks[0]
+        rhs = ast.parse(pth.res(pth.effects[k].value, k), mode="eval").body  # type: ignore[union-attr]
+        facts = {(t_, p_) for t_, p_ in pth.nfacts()}
+        variants = [(rhs, set(facts))]
+        # split conditional expressions
+        changed = True
+        while changed:
+            changed = False
+            nxt = []
+            for e_, fs in variants:
+                ife = next((n for n in ast.walk(e_) if isinstance(n, ast.IfExp)), None)
+                if ife is None:
+                    nxt.append((e_, fs))
+                    continue
+                changed = True
+                tt = unparse(ife.test)
+                for pol, br in ((True, ife.body), (False, ife.orelse)):
+                    class R(ast.NodeTransformer):
+                        def visit_IfExp(self, node, tt=tt, br=br):
+                            if unparse(node.test) == tt:
+                                return self.visit(copy.deepcopy(node.body if br is ife.body else node.orelse))
+                            return self.generic_visit(node)
+                    nxt.append((R().visit(copy.deepcopy(e_)), fs | {(tt, pol)}))
+            variants = nxt
+        for e_, fs in variants:
+            seen += 1
+            nonempty = None
+            for t_, p_ in fs:
+                t2, p2 = t_, p_
+                while t2.startswith("not "):
+                    t2, p2 = t2[4:].strip("()") if t2[4:].startswith("(") and t2.endswith(")") else t2[4:], not p2
+                if re.fullmatch(rf"pred\[{re.escape(b)}\]|len\(pred\[{re.escape(b)}\]\)( > 0| != 0| >= 1)?", t2):
+                    nonempty = p2
+                elif re.fullmatch(rf"len\(pred\[{re.escape(b)}\]\) == 0", t2):
+                    nonempty = not p2
+            # {b} | X
+            X = None
+            if isinstance(e_, ast.BinOp) and isinstance(e_.op, ast.BitOr):
+                for me, other in ((e_.left, e_.right), (e_.right, e_.left)):
+                    if isinstance(me, ast.Set) and len(me.elts) == 1 and unparse(me.elts[0]) == b:
+                        X = other
+            if X is None:
+                return ("meet-unrecognised", f"dominator update `{unparse(e_)[:100]}` is not of the form {{{b}}} | <meet>")
+            xt = unparse(X)
+            empty = bool(re.fullmatch(r"set(\[[^\]]*\])?\(\)", xt))
+            if nonempty is False:
+                if not empty:
+                    return ("meet-unrecognised", f"without predecessors the update adds `{xt[:80]}`")
+                continue
+            if empty and nonempty is None:
+                return ("meet-unrecognised", f"the update is {{{b}}} alone on a path where pred[{b}] is not known to be empty")
+            if empty and nonempty is True:
+                return ("meet", f"with predecessors the dominator set of {b} is reset to {{{b}}}: the dominators common to all predecessors are lost")
+            if not (isinstance(X, ast.Call) and isinstance(X.func, ast.Attribute)):
+                return ("meet-unrecognised", f"meet `{xt[:100]}` not understood")
+            if X.func.attr == "union":
+                return ("meet", f"the meet over the predecessors is a union (`{xt[:80]}`): a block is dominated only by what dominates ALL its predecessors")
+            if X.func.attr != "intersection" or len(X.args) != 1 or not isinstance(X.args[0], ast.Starred) or not isinstance(X.args[0].value, (ast.GeneratorExp, ast.ListComp)) or len(X.args[0].value.generators) != 1:
+                return ("meet-unrecognised", f"meet `{xt[:100]}` not understood")
+            g = X.args[0].value
+            gen = g.generators[0]
+            if gen.ifs:
+                return ("meet", f"the meet skips the predecessors failing `{unparse(gen.ifs[0])}`: a dominator must dominate every predecessor")
+            it_text = unparse(gen.iter)
+            for _ in range(3):  # names inside the comprehension are resolved against the path's environment too
+                it_text = pth.res(ast.parse(it_text, mode="eval").body, k)
+            if unparse(g.elt) != f"self._dominance[{unparse(gen.target)}]" or it_text != f"pred[{b}]":
+                return ("meet-unrecognised", f"meet `{xt[:100]}` does not range over self._dominance[p] for p in pred[{b}]")
+            if nonempty is None:
+                return ("meet-unrecognised", f"intersection over pred[{b}] on a path where it is not known to be non-empty")
+    if seen == 0:
+        return ("meet-unrecognised", "no path through the sweep body reaches the dominator update")
+    return None
 
 
 def _is_seen(e: ast.AST) -> bool:
@@ -351,8 +446,16 @@ def check_dominance(idx: Index, rep: Report) -> None:
                     if src is not None:
                         src = f"guard `{unparse(t)}` with {src}"
                         break
+        # the successors the edge is taken from: the loop binding the subscript of pred[...]
+        s_name = unparse(c.func.value.slice)  # type: ignore[attr-defined]
+        s_loops = [w for w in walk_local(f.node) if isinstance(w, ast.For) and unparse(w.target) == s_name and any(x is c for x in ast.walk(w))]
+        s_iter = resolved_text(cfg, s_loops[-1].iter, cfg.node_of(s_loops[-1])) if s_loops else ""
+        raw_successors = bool(re.fullmatch(rf"{re.escape(b)}\.last_op\.successors|{re.escape(b)}\.ops\.last\.successors", s_iter))
         if src is not None:
             r.ok(f.fq, f"{f.loc} predecessors collected from {src}")
+        elif not raw_successors:
+            # the edges come from a table / helper this rule does not read (e.g. a successor map keyed by the reachable blocks)
+            r.fail(f.fq, Finding("C24.R2", f.fq, "preds-source-unrecognised", f"`pred[{s_name}].add({b})` takes its edges from `{s_iter[:80]}`: whether that covers reachable blocks only was not decided", f"{f.module.relpath}:{c.lineno}"))
         else:
             r.fail(f.fq, Finding("C24.R2", f.fq, "unreachable-preds", f"`pred[...].add({b})` runs for every `{b}` in `{dom_txt}`: an unreachable block branching to B removes the entry block from dom(B)", f"{f.module.relpath}:{c.lineno}"))
 
@@ -415,17 +518,11 @@ def check_dominance(idx: Index, rep: Report) -> None:
     upd = [s for s in inner[0].body if isinstance(s, ast.Assign) and unparse(s.targets[0]) == f"self._dominance[{b}]"]
     if len(upd) != 1:
         raise AnalysisError(f"{f.fq}: dominator update not recognised")
-    v = upd[0].value
-    vt = unparse(v)
-    meet_ok = (
-        isinstance(v, ast.BinOp) and isinstance(v.op, ast.BitOr) and unparse(v.left) == f"{{{b}}}"
-        and "intersection(*(self._dominance[p] for p in pred[" + b + "]))" in vt
-        and f"if pred[{b}] else set()" in vt
-    )
-    if meet_ok:
+    verdict = _meet_verdict(inner[0], upd[0], b)
+    if verdict is None:
         r.ok(f.fq + ":meet", f"{f.loc} dom[{b}] = {{{b}}} | ∩ dom[p], p ∈ pred[{b}]")
     else:
-        r.fail(f.fq + ":meet", Finding("C24.R3", f.fq, "meet", f"dominator update `{vt}` is not `{{b}} | intersection(dom[p] for p in pred[b])`", f.loc))
+        r.fail(f.fq + ":meet", Finding("C24.R3", f.fq, verdict[0], verdict[1], f.loc))
     # queries (judged on what the returned expressions denote, under the guards of each return)
     def _returns(fi):
         c_ = CFG(fi.node)
